@@ -104,10 +104,10 @@ func init() {
 		d("group-nonempty", "invoke-ok", "bystander"),
 		"(a) 2 feeders placed freely in <=2 scopes with Export, 1 consumer from a free scope; (b) flatten results of length 0-2, a feeder added between two requests; (c) members provided As(vI0) / As(vI0,vI1), consumers of []*vA / []vI0 / []vI1, 2 Invokes; (d) 2 feeders with flatten results of length 0-2 placed freely in <=2 scopes; (e) 2 feeders and a consumer over the group names \"g\", \"g \", \"G\", \"gg\"; (f) ctor, ctor with <=2 results (single and group), decorator with an extra dependency (a feeder re-entered through a decorator of its dependency); (g) a root feeder with a dependency, a root and a child supplier of that dependency, consumer in a free scope", "the quick entries, each explored a second time with z3 4.8.12 (--cross z3), 200 paths validated natively",
 		stubs, uf, "group order is compared as a multiset")
-	reg("C11", d("verifC11a", "verifC11b", "verifC11c", "verifC11d", "verifC11e", "verifC11f", "verifC11h"), d("verifC11a", "verifC11b", "verifC11c", "verifC11d", "verifC11e", "verifC11f", "verifC11h"),
+	reg("C11", d("verifC11a", "verifC11b", "verifC11c", "verifC11d", "verifC11e", "verifC11f", "verifC11h", "verifC11i"), d("verifC11a", "verifC11b", "verifC11c", "verifC11d", "verifC11e", "verifC11f", "verifC11h", "verifC11i"),
 		d(pgBuild, poBuild, "go.uber.org/dig.parseGroupString"),
 		d("soft-group-arg", "soft-group-nonempty", "invoke-ok"),
-		"(a) 1 ctor with <=2 results (group and single), consumer object with 2 fields in free order (soft group, hard dependency); (b) 2 feeders, 2 Invokes (the first may run feeders, the second consumes softly); (c) consumer object with 3 fields (soft groups and hard dependencies in free order); (d) 2 feeders placed freely in <=2 scopes, 2 Invokes from free scopes (soft consumer in a child that has feeders of its own); (e) 2 registrations (feeders or hard / soft consumers of the group) before a soft consumer is invoked; (f) feeder, decorator, two-key decorator (group first; rejected when its second key is already decorated), soft consumer; (h) 2 ctors in the root, a value decorator with an extra soft value-group parameter in the root and a free-shape plain decorator in a child (possibly decorating the group), every registration accepted, 1 Invoke from a free scope", "the quick entries, each explored a second time with z3 4.8.12 (--cross z3), 200 paths validated natively",
+		"(a) 1 ctor with <=2 results (group and single), consumer object with 2 fields in free order (soft group, hard dependency); (b) 2 feeders, 2 Invokes (the first may run feeders, the second consumes softly); (c) consumer object with 3 fields (soft groups and hard dependencies in free order); (d) 2 feeders placed freely in <=2 scopes, 2 Invokes from free scopes (soft consumer in a child that has feeders of its own); (e) 2 registrations (feeders or hard / soft consumers of the group) before a soft consumer is invoked; (f) feeder, decorator, two-key decorator (group first; rejected when its second key is already decorated), soft consumer; (h) 2 ctors in the root, a value decorator with an extra soft value-group parameter in the root and a free-shape plain decorator in a child (possibly decorating the group), every registration accepted, 1 Invoke from a free scope; (i) as (a) with nested parameter objects: hard fields may sit in a nested dig.In declared before or after the plain fields, soft fields in the outer object only", "the quick entries, each explored a second time with z3 4.8.12 (--cross z3), 200 paths validated natively",
 		stubs, uf)
 	reg("C12", d("verifC12a", "verifC12b", "verifC12c", "verifC12d", "verifC12e", "verifC12g", "verifC12h"), d("verifC12a", "verifC12b", "verifC12c", "verifC12d", "verifC12e", "verifC12g", "verifC12h"),
 		d(dnCall, "(go.uber.org/dig.paramSingle).buildWithDecorators", decorate, "go.uber.org/dig.findResultKeys"),
